@@ -111,6 +111,7 @@ func (vb *vBroker) httpDeleteSession(id string) {
 type vClient struct {
 	id      string
 	conn    net.Conn
+	srv     *vnet.FlakyConn // the broker's end of the connection
 	mu      sync.Mutex
 	recv    []packets.ControlPacket
 	eof     bool // the broker closed the connection
@@ -121,11 +122,11 @@ type vClient struct {
 }
 
 func (vb *vBroker) dial(id string) *vClient {
-	conn, err := vb.l.Dial()
+	conn, srv, err := vb.l.DialFlaky()
 	if err != nil {
 		panic(err)
 	}
-	return &vClient{id: id, conn: conn, nextID: 100}
+	return &vClient{id: id, conn: conn, srv: srv, nextID: 100}
 }
 
 // connect opens a connection and performs the CONNECT handshake; the return code is in c.connack
